@@ -31,6 +31,7 @@ type Solver struct {
 	timeoutMs int
 	defined   map[int]bool // term ids defined at the current path scope
 	declUF    map[string]bool
+	hashApps  []*Term // digest applications defined on the current path (for the collision-freedom axioms)
 	Queries   int
 	Time      time.Duration
 	Errors    int
@@ -84,6 +85,7 @@ func (s *Solver) start() error {
 	s.out = bufio.NewReaderSize(out, 1<<16)
 	s.defined = map[int]bool{}
 	s.declUF = map[string]bool{}
+	s.hashApps = nil
 	s.dead = false
 	s.level = 0
 	s.recording = false
@@ -180,6 +182,7 @@ func (s *Solver) NewPath() {
 	s.level = 1
 	s.defined = map[int]bool{}
 	s.declUF = map[string]bool{}
+	s.hashApps = nil
 	s.recording = true
 }
 
@@ -201,6 +204,22 @@ func (s *Solver) define(tt *TermTable, t *Term) {
 				s.send(fmt.Sprintf("(declare-fun %s (%s) %s)", smtName(d.name), strings.Join(as, " "), sig.ret))
 			}
 			s.send(fmt.Sprintf("(define-fun t%d () %s %s)", d.id, d.sort, d.body()))
+			if strings.HasPrefix(d.name, "H:") && len(d.args) == 1 {
+				// collision freedom among the digests on this path: equal digests of equal-length
+				// inputs have equal inputs; digests of inputs of different length differ
+				alg := d.name[:strings.LastIndex(d.name, ":")]
+				for _, e := range s.hashApps {
+					if e.sort != d.sort || !strings.HasPrefix(e.name, alg+":") {
+						continue
+					}
+					if e.name == d.name {
+						s.send(fmt.Sprintf("(assert (=> (= t%d t%d) (= %s %s)))", d.id, e.id, d.args[0].ref(), e.args[0].ref()))
+					} else {
+						s.send(fmt.Sprintf("(assert (not (= t%d t%d)))", d.id, e.id))
+					}
+				}
+				s.hashApps = append(s.hashApps, d)
+			}
 		default:
 			s.send(fmt.Sprintf("(define-fun t%d () %s %s)", d.id, d.sort, d.body()))
 		}
